@@ -327,6 +327,11 @@ def concat_split(ctx, n_cases):
                                  impl=ns_arr(p_.index.values), expected=ns_arr(t_)); break
                 if len(pieces) != len(refs):
                     ctx.fail("oracle", "%s: number of pieces" % fname, inp, impl=len(pieces), expected=len(refs))
+                if all(int(v) >= 0 for v in arg):
+                    # the same split through the Lean model of NumPy's rule for ANY split points (`npSplit`, theorem `npSplit_zip`)
+                    enc_piece = lambda p_: "-" if not hasattr(p_, "index") or len(p_) == 0 else ",".join(str(v) for v in ns_arr(p_.index.values))
+                    lines.append("npsplit %s %s" % (enc(ns_arr(x.index.values)), enc([int(v) for v in arg])))
+                    metas.append((inp, "|".join(enc_piece(p_) for p_ in pieces)))
                 continue
             inp = dict(level="split", func=fname, cls=["Tsd", "TsdFrame", "TsdTensor"][cls], n=n, arg=arg)
             ctx.case(("sp", fname, cls, n, repr(arg)))
@@ -349,7 +354,7 @@ def concat_split(ctx, n_cases):
     if out is not None:
         for (inp, got), o in zip(metas, out):
             if got != o:
-                ctx.fail("corr", "concatenate accepted != model concatAccepts", inp, impl=got, model=o)
+                ctx.fail("corr", "split pieces != model npSplit" if inp.get("level") == "split" else "concatenate accepted != model concatAccepts", inp, impl=got, model=o)
 
 
 def run(ctx):
